@@ -521,3 +521,300 @@ class MergeKeepNullableSpec(KernelSpec):
 
     def parse_native(self, inst, shape, toks):
         return Agg("tuple", [VecObj(parse_ints(toks[0], "i64")), VecObj(parse_ints(toks[1], "u8"))])
+
+
+# ----------------------------------------------------------------------------------------------------
+# C02.c / C05.c : two-level (multi-column) merge: partition -> subpartition -> merge_partitioned
+# ----------------------------------------------------------------------------------------------------
+def premerge(l, r):
+    return Agg("struct", [I("u32", l), I("u32", r)], name="Premerge")
+
+
+def ref_runs(order, l, r):
+    """reference run decomposition is path dependent (symbolic keys); instead the post-condition checks local properties"""
+    return None
+
+
+class PartitionSpec(KernelSpec):
+    """partition::<T,C>(left, right, limit) on two runs sorted by C: consecutive Premerge{left,right} runs, each covering
+    only equal keys, in strictly increasing key order, together covering a prefix of both inputs that is complete when
+    limit >= |l|+|r| and covers at least `limit` elements otherwise"""
+    fn_path = "engine::operators::partition::partition"
+    diff_cases = 3
+
+    def instantiations(self, tier):
+        kt = [("i64", "CmpLessThan", "lt"), ("u8", "CmpGreaterThan", "gt")] if tier == "quick" else KEY_TYPES_THOROUGH
+        return [{"T": t, "C": c, "nat": f"partition_{t}_{s}"} for t, c, s in kt]
+
+    def shapes(self, tier, inst):
+        if tier == "quick":
+            return [(0, 0), (2, 0), (0, 2), (1, 2), (2, 2)]
+        return [(a, b) for a in range(0, 4) for b in range(0, 4) if a + b <= 5]
+
+    def sym_inputs(self, inst, shape):
+        n, m = shape
+        ty = inst["T"]
+        order = Order(ty, inst["C"] == "CmpGreaterThan")
+        l = [sym(ty, f"l{i}") for i in range(n)]
+        r = [sym(ty, f"r{i}") for i in range(m)]
+        return {"l": l, "r": r, "limit": sym("usize", "limit")}, sorted_pre(order, l) + sorted_pre(order, r)
+
+    def make_args(self, inst, shape, inp):
+        return [slice_arg(inp["l"]), slice_arg(inp["r"]), inp["limit"]]
+
+    def runs(self, value):
+        out = []
+        for p in elems_of(value):
+            out.append((p.fields[0], p.fields[1]))
+        return out
+
+    def post(self, inst, shape, inp, value, state=None):
+        order = Order(inst["T"], inst["C"] == "CmpGreaterThan")
+        l, r, limit = inp["l"], inp["r"], inp["limit"]
+        n, m = len(l), len(r)
+        runs = self.runs(value) if not isinstance(value, list) else value
+        conds = []
+        i = j = 0
+        prev = None
+        okshape = True
+        for k, (a, b) in enumerate(runs):
+            if not (a.concrete and b.concrete):
+                return [("run lengths are determined", B(False))]
+            a, b = a.v, b.v
+            if a + b == 0 or i + a > n or j + b > m:
+                okshape = False
+                break
+            elems = l[i:i + a] + r[j:j + b]
+            for e in elems[1:]:
+                conds.append((f"run {k} holds equal keys only", binop("Eq", e, elems[0])))
+            if prev is not None:
+                conds.append((f"run {k} starts a strictly later key than run {k-1}", order.before(prev, elems[0])))
+            # maximality: the next unconsumed element on either side is not equal to this run's key
+            if i + a < n:
+                conds.append((f"run {k} takes every left row with its key", binop("Ne", l[i + a], elems[0])))
+            if j + b < m:
+                conds.append((f"run {k} takes every right row with its key", binop("Ne", r[j + b], elems[0])))
+            # the run's key is the smallest unconsumed key
+            if i + a < n:
+                conds.append((f"run {k} key sorts before the remaining left rows", order.before(elems[0], l[i + a])))
+            if j + b < m:
+                conds.append((f"run {k} key sorts before the remaining right rows", order.before(elems[0], r[j + b])))
+            prev = elems[0]
+            i += a
+            j += b
+        conds.append(("runs are non-empty and stay inside both inputs", B(okshape)))
+        if not okshape:
+            return conds
+        complete = (i == n and j == m)
+        conds.append(("all rows are covered when the limit allows, otherwise at least `limit` rows",
+                      B(True) if complete else binop("Ge", I("usize", i + j), limit)))
+        return conds
+
+    def random_inputs(self, rng, inst, shape):
+        n, m = shape
+        desc = inst["C"] == "CmpGreaterThan"
+        pool = [rnd_int(rng, inst["T"], small=True) for _ in range(3)]
+        mk = lambda k: [I(inst["T"], x) for x in sorted((rng.choice(pool) for _ in range(k)), reverse=desc)]
+        return {"l": mk(n), "r": mk(m), "limit": I("usize", rng.choice([0, 1, 2, n + m, 10, 2**64 - 1]))}
+
+    def native(self, inst, shape, inp):
+        if inp is None:
+            return (inst["nat"], [])
+        return (inst["nat"], [fmt_ints(inp["l"]), fmt_ints(inp["r"]), inp["limit"].v])
+
+    def parse_native(self, inst, shape, toks):
+        out = []
+        if toks[0] != "-":
+            for ent in toks[0].split(";"):
+                a, b = ent.split(":")
+                out.append((I("u32", int(a)), I("u32", int(b))))
+        return out
+
+    def native_view(self, inst, shape, v, st):
+        return self.runs(v)
+
+
+GROUPINGS_QUICK = [((1, 1),), ((2, 1),), ((1, 2),), ((1, 0), (1, 1)), ((2, 2),), ((0, 1), (1, 1))]
+GROUPINGS_THOROUGH = GROUPINGS_QUICK + [((3, 1),), ((2, 1), (1, 2)), ((1, 1), (1, 1), (1, 0)), ((0, 2), (2, 0)), ((2, 3),)]
+
+
+class MergePartitionedSpec(KernelSpec):
+    """merge_partitioned(partitioning, left, right, limit): inside every first-key run the second-key values of both sides
+    (each sorted within the run) are merged stably - a left row before a right row on ties - and the 0/1 ops say which side
+    each output row came from; output length == min(limit, total)"""
+    fn_path = "engine::operators::merge_partitioned::merge_partitioned"
+    diff_cases = 2
+
+    def instantiations(self, tier):
+        kt = [("i64", "CmpLessThan", "lt"), ("u8", "CmpGreaterThan", "gt")] if tier == "quick" else [("i64", "CmpLessThan", "lt"), ("i64", "CmpGreaterThan", "gt"), ("u8", "CmpGreaterThan", "gt"), ("u32", "CmpLessThan", "lt")]
+        return [{"T": t, "C": c, "nat": f"merge_partitioned_{t}_{s}"} for t, c, s in kt]
+
+    def shapes(self, tier, inst):
+        return GROUPINGS_QUICK if tier == "quick" else GROUPINGS_THOROUGH
+
+    def sym_inputs(self, inst, shape):
+        ty = inst["T"]
+        order = Order(ty, inst["C"] == "CmpGreaterThan")
+        n = sum(a for a, b in shape)
+        m = sum(b for a, b in shape)
+        l = [sym(ty, f"l{i}") for i in range(n)]
+        r = [sym(ty, f"r{i}") for i in range(m)]
+        pre = []
+        i = j = 0
+        for a, b in shape:
+            pre += sorted_pre(order, l[i:i + a]) + sorted_pre(order, r[j:j + b])
+            i += a
+            j += b
+        return {"l": l, "r": r, "limit": sym("usize", "limit")}, pre
+
+    def make_args(self, inst, shape, inp):
+        return [slice_arg([premerge(a, b) for a, b in shape]), slice_arg(inp["l"]), slice_arg(inp["r"]), inp["limit"]]
+
+    def post(self, inst, shape, inp, value, state=None):
+        order = Order(inst["T"], inst["C"] == "CmpGreaterThan")
+        l, r, limit = inp["l"], inp["r"], inp["limit"]
+        out = elems_of(value.fields[0])
+        ops = elems_of(value.fields[1])
+        tot = len(l) + len(r)
+        K = len(out)
+        conds = [("ops has one entry per output row", B(len(ops) == K)),
+                 # limit == 0 is outside the claim: the function then returns every row (its `i + j == limit` test runs after the
+                 # first push) and the final LIMIT truncation happens in convert_to_output_format, so no result depends on it
+                 ("output length == min(limit, total rows) for limit >= 1", bor(binop("Eq", limit, I("usize", 0)), binop("Eq", I("usize", K), ite(binop("Lt", limit, I("usize", tot)), limit, I("usize", tot)))))]
+        if len(ops) != K:
+            return conds
+        i0 = j0 = 0
+        k = 0
+        ok = True
+        for a, b in shape:
+            i, j = i0, j0
+            src = []
+            while k < K and (i - i0) + (j - j0) < a + b:
+                o = ops[k]
+                if not o.concrete or o.v not in (0, 1):
+                    ok = False
+                    break
+                if o.v == 1:
+                    if i >= i0 + a:
+                        ok = False
+                        break
+                    conds.append((f"out[{k}] is the next left row of its run", binop("Eq", out[k], l[i])))
+                    src.append(("l", i))
+                    i += 1
+                else:
+                    if j >= j0 + b:
+                        ok = False
+                        break
+                    conds.append((f"out[{k}] is the next right row of its run", binop("Eq", out[k], r[j])))
+                    src.append(("r", j))
+                    j += 1
+                k += 1
+            if not ok:
+                break
+            base = k - len(src)
+            for t in range(len(src) - 1):
+                x, y = out[base + t], out[base + t + 1]
+                if src[t][0] == "r" and src[t + 1][0] == "l":
+                    conds.append(("stable: a right row precedes a left row of the same run only if it sorts strictly before it", order.before(x, y)))
+                else:
+                    conds.append(("rows of a run come out sorted", order.before_eq(x, y)))
+            # rows left behind in this run (only when the limit cut it) do not sort before taken ones
+            if i < i0 + a and (j - j0) > 0:
+                conds.append(("an untaken left row does not sort before-or-equal the last taken right row", order.before(r[j - 1], l[i])))
+            if j < j0 + b and (i - i0) > 0:
+                conds.append(("an untaken right row does not sort strictly before the last taken left row", order.before_eq(l[i - 1], r[j])))
+            i0 += a
+            j0 += b
+        conds.append(("ops are a valid interleaving run by run", B(ok)))
+        return conds
+
+    def random_inputs(self, rng, inst, shape):
+        desc = inst["C"] == "CmpGreaterThan"
+        ty = inst["T"]
+        l, r = [], []
+        pool = [rnd_int(rng, ty, small=True) for _ in range(3)]
+        for a, b in shape:
+            l += [I(ty, x) for x in sorted((rng.choice(pool) for _ in range(a)), reverse=desc)]
+            r += [I(ty, x) for x in sorted((rng.choice(pool) for _ in range(b)), reverse=desc)]
+        tot = len(l) + len(r)
+        return {"l": l, "r": r, "limit": I("usize", rng.choice([tot, tot + 1, 1, 2, 2**64 - 1, max(tot - 1, 1)]))}
+
+    def native(self, inst, shape, inp):
+        if inp is None:
+            return (inst["nat"], [])
+        return (inst["nat"], [";".join(f"{a}:{b}" for a, b in shape), fmt_ints(inp["l"]), fmt_ints(inp["r"]), inp["limit"].v])
+
+    def parse_native(self, inst, shape, toks):
+        return Agg("tuple", [VecObj(parse_ints(toks[0], inst["T"])), VecObj(parse_ints(toks[1], "u8"))])
+
+
+class SubpartitionOpSpec(KernelSpec):
+    """subpartition(partitioning, left, right): every first-key run is refined into runs of equal second keys in merged
+    order (the run structure partition() would give inside that run)"""
+    fn_path = "engine::operators::subpartition::subpartition"
+    diff_cases = 2
+
+    def instantiations(self, tier):
+        return [{"T": "i64", "C": "CmpLessThan", "nat": "subpartition_i64_lt"}] + ([] if tier == "quick" else [{"T": "u8", "C": "CmpGreaterThan", "nat": "subpartition_u8_gt"}])
+
+    def shapes(self, tier, inst):
+        return GROUPINGS_QUICK if tier == "quick" else GROUPINGS_THOROUGH
+
+    sym_inputs = MergePartitionedSpec.sym_inputs
+
+    def make_args(self, inst, shape, inp):
+        return [slice_arg([premerge(a, b) for a, b in shape]), slice_arg(inp["l"]), slice_arg(inp["r"])]
+
+    def post(self, inst, shape, inp, value, state=None):
+        order = Order(inst["T"], inst["C"] == "CmpGreaterThan")
+        l, r = inp["l"], inp["r"]
+        runs = [(p.fields[0], p.fields[1]) for p in elems_of(value)] if not isinstance(value, list) else value
+        conds = []
+        ri = 0
+        i0 = j0 = 0
+        ok = True
+        for a, b in shape:
+            i, j = i0, j0
+            prev = None
+            while (i - i0) < a or (j - j0) < b:
+                if ri >= len(runs):
+                    ok = False
+                    break
+                x, y = runs[ri]
+                ri += 1
+                if not (x.concrete and y.concrete) or x.v + y.v == 0 or i + x.v > i0 + a or j + y.v > j0 + b:
+                    ok = False
+                    break
+                elems = l[i:i + x.v] + r[j:j + y.v]
+                for e in elems[1:]:
+                    conds.append(("a sub-run holds equal second keys only", binop("Eq", e, elems[0])))
+                if prev is not None:
+                    conds.append(("sub-runs of one run have strictly increasing keys", order.before(prev, elems[0])))
+                if i + x.v < i0 + a:
+                    conds.append(("a sub-run takes every left row of its key", order.before(elems[0], l[i + x.v])))
+                if j + y.v < j0 + b:
+                    conds.append(("a sub-run takes every right row of its key", order.before(elems[0], r[j + y.v])))
+                prev = elems[0]
+                i += x.v
+                j += y.v
+            if not ok:
+                break
+            i0 += a
+            j0 += b
+        conds.append(("sub-runs tile every run exactly", B(ok and ri == len(runs))))
+        return conds
+
+    def random_inputs(self, rng, inst, shape):
+        d = MergePartitionedSpec.random_inputs(self, rng, inst, shape)
+        d.pop("limit")
+        return d
+
+    def native(self, inst, shape, inp):
+        if inp is None:
+            return (inst["nat"], [])
+        return (inst["nat"], [";".join(f"{a}:{b}" for a, b in shape), fmt_ints(inp["l"]), fmt_ints(inp["r"])])
+
+    parse_native = PartitionSpec.parse_native
+
+    def native_view(self, inst, shape, v, st):
+        return [(p.fields[0], p.fields[1]) for p in elems_of(v)]
